@@ -12,6 +12,7 @@ pub fn dispatch(req: &Value) -> Value {
         "ts_wins" => ts_wins(),
         "variant_literals" => variant_literals(),
         "flatten_shapes" => flatten_shapes(),
+        "expansion_text" => expansion_text(req),
         "ts_field_name" => ts_field_name(req),
         "parse_docs" => parse_docs(req),
         "conformance" => super::conformance::run(req["seed"].as_u64().unwrap_or(0), req["n"].as_u64().unwrap_or(2000) as usize),
@@ -663,4 +664,16 @@ fn flatten_shapes() -> Value {
         out.push(json!({"case": what, "binding": got, "expected": want.unwrap_or_else(|| "brackets balanced".to_string()), "agree": ok || known, "matches": ok}));
     }
     json!({"cases": out, "agree": agree})
+}
+
+
+// ---------------------------------------------------------------------------------------------------------
+// C13: the text the derive expands an item to (compared across fresh processes: it must not depend on a per-process hash seed)
+fn expansion_text(req: &Value) -> Value {
+    let src = req["item"].as_str().unwrap_or("struct S { a: A, b: B, c: C, d: D, e: Vec<E>, f: Option<F> }").to_string();
+    let r = catch(move || {
+        let ts: proc_macro2::TokenStream = src.parse().map_err(|e: proc_macro2::LexError| e.to_string())?;
+        macrolib::verif_api::derive(ts).map(|t| t.to_string()).map_err(|e| e.to_string())
+    });
+    match r { Ok(Ok(t)) => json!({"expansion": t}), Ok(Err(e)) => json!({"error": e}), Err(p) => json!({"panic": p}) }
 }
